@@ -759,30 +759,23 @@ theorem lower_spec (E : Env) (K : Consts) (hU : UnicodeFacts E.U K) (t : Text) :
       (∀ c, E.U.isAlnum (g c) = E.U.isAlnum c) ∧
       (∀ c, isSepChar E.U K c = false → isSepChar E.U K (g c) = false) ∧
       (∀ c ∈ t.chars.map g, E.U.isUppercase c = true → E.U.lower1 c = c) := by
-  by_cases h : t.chars.any E.U.isUppercase = true
-  · refine ⟨E.U.lower1, by simp [Text.lower, h], hU.lower_alnum, hU.lower_sep, ?_⟩
-    intro c hc _
-    obtain ⟨c0, _, rfl⟩ := List.mem_map.1 hc
-    exact hU.lower_idem c0
-  · refine ⟨id, by simp [Text.lower, h], fun _ => rfl, fun _ hc => hc, ?_⟩
-    intro c hc hup
-    simp only [List.map_id] at hc
-    exact absurd (List.any_eq_true.2 ⟨c, hc, hup⟩) h
+  refine ⟨E.U.lower1, by simp [Text.lower], hU.lower_alnum, hU.lower_sep, ?_⟩
+  intro c hc _
+  obtain ⟨c0, _, rfl⟩ := List.mem_map.1 hc
+  exact hU.lower_idem c0
 
 /-- when `lower` changes a character that ends up upper-case, that character is unchanged: the only
     upper-case characters left are those without a lower-case mapping -/
 theorem lower_upper_unchanged (E : Env) (K : Consts) (hU : UnicodeFacts E.U K) (t : Text) (k c : Nat)
     (hk : (t.lower E).chars[k]? = some c) (hup : E.U.isUppercase c = true) : t.chars[k]? = some c := by
-  by_cases h : t.chars.any E.U.isUppercase = true
-  · simp only [Text.lower, h, if_true, List.getElem?_map] at hk
-    cases h0 : t.chars[k]? with
-    | none => rw [h0] at hk; cases hk
-    | some c0 =>
-      rw [h0] at hk
-      simp only [Option.map_some, Option.some.injEq] at hk
-      subst hk
-      rw [hU.lower_upper c0 hup]
-  · simpa [Text.lower, h] using hk
+  simp only [Text.lower, List.getElem?_map] at hk
+  cases h0 : t.chars[k]? with
+  | none => rw [h0] at hk; cases hk
+  | some c0 =>
+    rw [h0] at hk
+    simp only [Option.map_some, Option.some.injEq] at hk
+    subst hk
+    rw [hU.lower_upper c0 hup]
 
 theorem setPos_spans (E : Env) (t : Text) :
     (t.setPos E).words.map WordShape.span = t.words.map WordShape.span ∧
